@@ -7,5 +7,8 @@ def handle (fn : String) (args : List Json) : String :=
   | "_calc_check_digits" => match args with
     | [a0] => (do let x0 ← Wire.decStr a0; pure (Wire.respondWith Wire.encStr (Gen.be_iban._calc_check_digits x0)) : Option String).getD "badargs"
     | _ => "badargs"
+  | "info" => match args with
+    | [a0] => (do let x0 ← Wire.decStr a0; pure (Wire.respondWith (Wire.encDict Wire.encStr Wire.encStr) (Gen.be_iban.info x0)) : Option String).getD "badargs"
+    | _ => "badargs"
   | _ => "nofunc"
 end Driver.D_be_iban
